@@ -14,7 +14,7 @@ from .. import tlc
 from ..common import Check, pmap
 
 CH = {'x': 'x', '5': '5', ';': ';', 'm': 'm', '[': '[', '{': '{', ':': ':', 'B': '\\', 'q': '"', 'W': '世', 'C': 'é', 'E': '\x1b',
-      's': ' '}
+      's': ' ', 'R': '\r', 'L': '\n', 'F': '\x0c'}        # R, L, F: carriage return, line feed, form feed (no escape characters)
 SPECS = ['', '>8', '<8', '^8', '*^8', '3', '.0', '.2', '*>8.2', '0', '08']
 MODNAMES = {1: 'bold', 2: 'dim', 3: 'italic', 4: 'underline', 5: 'blink', 7: 'inverse', 8: 'hidden', 9: 'strikethrough'}
 
@@ -148,6 +148,16 @@ def render_errors(_case):
             bad.append({'what': 'descape(coloured error) != uncoloured error', 'text': text, 'observed': [on1, off1]})
         if '\x1b' not in on1:
             bad.append({'what': 'coloured error rendering has no escapes', 'text': text, 'observed': on1})
+        # a policy object that is switched on after it was used switched off (the documented idiom Color().enable(flag)): a later
+        # rendering under a disabled policy must not follow it
+        x = Color()
+        x.enable(False)
+        off0 = err.render(x)
+        x.enable(True)
+        off2 = err.render(Color.never())
+        if '\x1b' in off0 or '\x1b' in off2 or off2 != off1:
+            bad.append({'what': 'error rendered with colour disabled, after another policy object was switched on, contains escapes',
+                        'text': text, 'observed': [off0, off2]})
     return bad
 
 
@@ -185,7 +195,7 @@ def run(tier):
     d = tlc.scratch_dir('sgr')
     try:
         cfg = os.path.join(d, 'sgr.cfg')
-        alpha = '{"x", "5", ";", "m", "[", "{", ":", "B", "q", "W", "C"}'
+        alpha = '{"x", "5", ";", "m", "[", "{", ":", "B", "q", "W", "C", "R", "L", "F"}'
         open(cfg, 'w').write(f'CONSTANT TextAlphabet = {alpha}\nCONSTANT MaxLen = {1 if tier == "quick" else 2}\n'
                              'CONSTANT ModSets <- DefModSets\nCONSTANT Colors <- DefColors\nINIT Init\nNEXT Next\nINVARIANT StripLaw\n'
                              'INVARIANT LenLaw\nINVARIANT ParseLaw\nINVARIANT OffLaw\nCHECK_DEADLOCK FALSE\n')
